@@ -335,3 +335,17 @@ func phiLeaves(ph *ssa.Phi) []ssa.Value {
 	walk(ph)
 	return out
 }
+
+// importRules evaluates another property's rules in a scratch ledger and files the obligations of the
+// named rules under this property's rule ids (a rule that is a necessary condition of both).
+func importRules(c *Ctx, run func(*Ctx), rename map[string]string) {
+	sub := &Ctx{L: newLedger(c.L.Prop), P: c.P, Tier: c.Tier}
+	sub.L.P = c.P
+	run(sub)
+	for _, o := range sub.L.Obls {
+		if to, ok := rename[o.Rule]; ok {
+			o.Rule = to
+			c.L.add(o)
+		}
+	}
+}
